@@ -189,6 +189,7 @@ pub fn batch_process(b: &Batch, run: &dyn Fn(&mut Universe, &Batch, &mut Stats))
         unsafe { libc::waitpid(pid, &mut status, 0) };
         if libc::WIFEXITED(status) && libc::WEXITSTATUS(status) == 77 {
             warmup_retries += 1;
+            eprintln!("note: universe warm-up failed ({} {} lo={}), booting another one", b.check, b.phase, lo);
             continue;
         }
         if libc::WIFSIGNALED(status) || (libc::WIFEXITED(status) && libc::WEXITSTATUS(status) != 0) {
